@@ -537,7 +537,9 @@ class RefSim:
             state[pop.name] = d
         return state
 
-    def run(self):
+    def run(self, initial=None):
+        """initial: optional {(pop, comp): pre-flush size} replacing the sizes read from the databook (used when the initial state is
+        the solution of a linear system that atomica only reproduces to its absolute tolerance of 1e-6; C07 decides that step)"""
         T = len(self.t)
         out = {}
 
@@ -547,6 +549,11 @@ class RefSim:
             out[key][..., ti] = v
 
         state = self.initial_state()
+        if initial:
+            for (pop, cname), v in initial.items():
+                if pop in state and cname in state[pop] and self.comps[cname]["kind"] not in ("src", "sink"):
+                    cur = state[pop][cname]
+                    state[pop][cname] = np.full(len(cur), float(v) / len(cur)) if isinstance(cur, np.ndarray) else float(v)
         pv = self.eval_pars(state, 0)
         self.flush(state, pv)
         for ti in range(T):
